@@ -535,7 +535,7 @@ impl ClusterHandler for GenCommHandler<'_> {
                     .check_disarm(sess.get_session_mode(), &state.fabrics)?;
 
                 persist.store(state.fabrics.fabric(fab_idx)?)?;
-                ctx.networks().access(|networks| {
+                let result = ctx.networks().access(|networks| {
                     let was_managed = networks.managed()?;
 
                     networks.set_managed(true)?;
@@ -550,7 +550,26 @@ impl ClusterHandler for GenCommHandler<'_> {
                     }
 
                     result
-                })?;
+                });
+
+                if let Err(e) = result {
+                    // Nothing is committed without the networks. A fabric added under this
+                    // fail-safe had no stored record before: take the one just written out of
+                    // the store again, or the expiry - which puts back what is stored - and a
+                    // restart would find the fabric of a commissioning that was answered with
+                    // an error.
+                    if state.failsafe.is_adding_fabric(fab_idx) {
+                        if let Err(e) = persist.remove(fab_idx) {
+                            error!(
+                                "Removing the uncommitted fabric {} from the storage failed: {:?}",
+                                fab_idx.get(),
+                                e
+                            );
+                        }
+                    }
+
+                    return Err(e);
+                }
 
                 state
                     .failsafe
